@@ -466,7 +466,7 @@ def _(A, R):
     ends_logical = z3.And(z3.Not(continued), z3.Not(in_block))
     out = []
     # expected shapes of the call sequence
-    shape_end = ["phys_init", "process", "logical_newline", "category", "?add", "join", "physical_update", "physical_reset"]
+    shape_end = ["phys_init", "process", "logical_newline", "category", "?add", "join", "physical_update", "?yield", "physical_reset"]
     shape_mid = ["phys_init", "process", "category", "?add", "join"]
 
     def matches(shape):
@@ -476,6 +476,9 @@ def _(A, R):
             if s_ == "?add":
                 if "add_physical_line" in it:
                     exp.append("add_physical_line")
+            elif s_ == "?yield":          # the executor records a yield in the call list: after the update, before the reset
+                if "yield" in it:
+                    exp.append("yield")
             else:
                 exp.append(s_)
         return it == exp
